@@ -324,8 +324,21 @@ fn value_case(out: &mut Out, v: &Value, rng: &mut Rng) {
         out.emit(&format!("rt {}", b2h), &line);
         out.emit(&format!("rt {}", b1h), &line);
     }
-    for raw in [&raw1, &raw2] {
-        if raw.len() > 200_000 {
+    // the same value with its byte strings written in several chunks: a valid encoding no serializer call of the
+    // harness produces
+    let mut raw2c = Vec::new();
+    if text.contains("Y ") {
+        verif_harness::valuegen::CHUNK_SEED.with(|c| c.set(rng.next() | 1));
+        raw_encode(v, Ep::V2, &mut raw2c);
+        verif_harness::valuegen::CHUNK_SEED.with(|c| c.set(0));
+        if raw2c == raw2 {
+            raw2c.clear();
+        } else {
+            out.count("value.chunked_bytes");
+        }
+    }
+    for raw in [&raw1, &raw2, &raw2c] {
+        if raw.len() > 200_000 || raw.is_empty() {
             continue;
         }
         let d = rust_dec(out, raw);
@@ -350,7 +363,7 @@ fn value_case(out: &mut Out, v: &Value, rng: &mut Rng) {
         for _ in 0..3 {
             let from = *rng.pick(&versions);
             let to = rng.pick(&versions[1..]).unwrap();
-            let src = if rng.chance(1, 4) { &raw1 } else { &raw2 };
+            let src = if !raw2c.is_empty() && rng.chance(1, 2) { &raw2c } else if rng.chance(1, 4) { &raw1 } else { &raw2 };
             let (r, _) = rust_conv(out, from, to, src);
             out.emit(&format!("conv {} {} {}", ver_text(from), ver_text(Some(to)), hex(src)), &r);
         }
